@@ -94,7 +94,9 @@ class Collector:
 
     @property
     def full(self):
-        return len(self.violations) >= MAX_VIOLATIONS
+        """Stop exploring: five distinct fingerprints, or one fingerprint seen hundreds of times (a check must also
+        terminate quickly on a badly broken tree)."""
+        return len(self.violations) >= MAX_VIOLATIONS or any(v.get("count", 1) >= 300 for v in self.violations)
 
     def merge(self, other):
         self.evaluations += other.evaluations
